@@ -59,6 +59,7 @@ type E1Case struct {
 	Futile   int          `json:"futile,omitempty"` // futile Close polls (real 100 ms sleeps) the schedule may take
 	NoSweep  bool         `json:"nosweep,omitempty"`
 	Probe    bool         `json:"probe,omitempty"` // C18: force a blocked writer on at the terminal state
+	C05      *C05Spec     `json:"c05,omitempty"`   // lifecycle probe configuration
 }
 
 type e1Call struct {
@@ -80,6 +81,10 @@ type e1Call struct {
 	ChanDoneThen bool
 	Parked       bool // the call was parked (disabled) at enqueue.before at some decision
 	Forced       bool // the terminal probe pushed the call past a full queue
+	ActiveAfter  bool // close: IsActive() right after Close returned
+	CtxErrAfter  bool // close: Context().Err() != nil right after Close returned
+	Who          string
+	TaskPtr      *sched.Task
 	FullAtBegin  bool // queue full when the call began
 	OpenAtBegin  bool // channel open when the call began
 }
@@ -113,7 +118,6 @@ type e1Run struct {
 	cls                *core.ClassSet
 	maxQ               int
 	lockContended      bool
-	probe              *e1Probe
 	incon              string
 	closeCalls         []*e1Call
 	bound              int // max over steps of (successful returned calls - packets written)
@@ -125,6 +129,11 @@ type e1Run struct {
 	inactiveSeq        []int
 	exceptions         []error
 	mu                 sync.Mutex
+	serveReturned      int
+	holderErr          error
+	winners            []e1Winner
+	c05                *c05Probe
+	holder             netty.ChannelHolder
 }
 
 // afterClosed in E1Task.After gates a task until the Close call that took effect has returned.
@@ -171,7 +180,7 @@ func closeErrOf(kind string, id int) error {
 
 func (r *e1Run) senders() []*sched.Task {
 	var out []*sched.Task
-	for i, t := range r.ex.Tasks {
+	for i, t := range r.ex.TaskList() {
 		if i > 0 {
 			out = append(out, t)
 		}
@@ -180,8 +189,8 @@ func (r *e1Run) senders() []*sched.Task {
 }
 
 func (r *e1Run) reader() *sched.Task {
-	if len(r.ex.Tasks) > 0 {
-		return r.ex.Tasks[0]
+	if ts := r.ex.TaskList(); len(ts) > 0 {
+		return ts[0]
 	}
 	return nil
 }
@@ -196,6 +205,9 @@ func (r *e1Run) hook(ch netty.Channel, where string) {
 	}
 	r.mu.Lock() // a task pushed on by the terminal probe (C18) runs beside the scheduled one
 	r.hooks[where]++
+	if where == "close.won" {
+		r.winners = append(r.winners, e1Winner{task: t, seq: r.s.Seq()})
+	}
 	r.mu.Unlock()
 	td, _ := t.Data.(*e1TaskData)
 	var pred func() bool
@@ -327,10 +339,11 @@ func (r *e1Run) runTask(ti int, spec E1Task, td *e1TaskData) {
 				}()
 				r.ch.Close(call.Err)
 			}()
+			call.ActiveAfter = r.ch.IsActive()
+			call.CtxErrAfter = r.ch.Context().Err() != nil
 			call.End = r.s.Seq()
-			if r.probe != nil {
-				r.probe.afterClose(call)
-			}
+			call.TaskPtr = r.tasks[ti]
+			call.Who = "task"
 		case op.Op == "cancelparent":
 			r.s.Yield("call.begin", nil)
 			r.pcancel()
@@ -363,6 +376,12 @@ func (r *e1Run) runTask(ti int, spec E1Task, td *e1TaskData) {
 				}()
 				r.ch.Trigger(fmt.Sprintf("event-%d-%d", ti, oi))
 			}()
+		case op.Op == "closeall":
+			r.s.Yield("call.begin", nil)
+			if r.holder != nil {
+				r.holderErr = closeErrOf(op.Err, 900+ti)
+				r.holder.CloseAll(r.holderErr)
+			}
 		case op.Op == "scribble":
 			// a second, well-behaved user of the byte pool
 			n := imax(0, op.N)
@@ -519,6 +538,11 @@ func newE1(c E1Case, handlers ...netty.Handler) *e1Run {
 		factory = netty.NewChannel()
 	}
 	r.ch = factory(1, r.parent, r.pl, r.tr, r.ex)
+	if c.C05 != nil {
+		r.holder = netty.NewChannelHolder(4)
+		r.c05 = &c05Probe{r: r, spec: *c.C05}
+		r.pl.AddLast(r.holder, r.c05)
+	}
 	for _, h := range handlers {
 		r.pl.AddLast(h)
 	}
@@ -550,10 +574,23 @@ func newE1(c E1Case, handlers ...netty.Handler) *e1Run {
 // start serves the channel (set-up phase) and creates the harness tasks.
 func (r *e1Run) start() error {
 	e1cur = r
-	r.pl.ServeChannel(r.ch)
-	r.ex.SetUp = false
-	if err := r.s.Settle(); err != nil {
-		return err
+	if r.c.C05 != nil && r.c.C05.SchedSetup {
+		// activation under the scheduler: ServeChannel runs on its own task, which blocks
+		// (without a yield) until the activation is over and then continues by itself
+		r.ex.SetUp = false
+		server := r.s.Go("server", false, func() {
+			r.pl.ServeChannel(r.ch)
+			r.serveReturned = r.s.Seq()
+		})
+		server.Data = &e1TaskData{role: "server"}
+		r.s.ResumeDetached(server)
+	} else {
+		r.pl.ServeChannel(r.ch)
+		r.serveReturned = r.s.Seq()
+		r.ex.SetUp = false
+		if err := r.s.Settle(); err != nil {
+			return err
+		}
 	}
 	for ti, spec := range r.c.Tasks {
 		ti, spec := ti, spec
@@ -852,11 +889,9 @@ func (r *e1Run) escapedPanic() string {
 
 var _ = time.Second
 
-// e1Probe records lifecycle events (C05); see c05_lifecycle_test.go.
 type mockTEvent = mock.TEvent
 
-type e1Probe struct {
-	r *e1Run
+type e1Winner struct {
+	task *sched.Task
+	seq  int
 }
-
-func (p *e1Probe) afterClose(c *e1Call) {}
